@@ -15,15 +15,37 @@ import (
 //	Do:  q, CTM' = Matrix × CTM, content, Q
 //	a string is shown at (0,0) × Tm × CTM; afterwards Tm has moved by the glyph advance,
 //	which this reference does not know: `known` is cleared until Tm is assigned again.
+//	TJ: every string of the array is shown; a number moves Tm (not Tlm).
+//	Ts: sets the rise; the property makes no statement about text shown with a rise.
+//
+// With glyph widths supplied (withAdv, the programs of op c08.tx) the reference also follows
+// 9.4.4: after each glyph Tm = T(tx,0) × Tm with tx = (w0·Tfs + Tc + Tw)·Th (Tw for the
+// single-byte code 32), a TJ number v gives tx = −v/1000·Tfs·Th; `known` then stays set.
 //
 // It doubles as the exactness guard of DESIGN 3.3: every product and partial sum that the
 // float64 evaluation forms is checked to be a dyadic rational with < 2^52 numerator.
 
 type rframe struct {
-	ctm, tm, tlm mat
-	tl, fs       *big.Rat
-	known        bool
-	event        string // last geometry event, names the oracle key of the next show
+	ctm, tm, tlm     mat
+	tl, fs           *big.Rat
+	tc, tw, th, rise *big.Rat
+	font             bool // Tf has selected a font (part of the text state, saved by q)
+	known            bool
+	event            string // last geometry event, names the oracle key of the next show
+	afterTJNum       bool   // a TJ number has moved Tm since Tm was last assigned
+}
+
+// glyph: width in 1/1000 of the font size and whether the code is 32
+type glyph struct {
+	w     int64
+	space bool
+}
+
+// strInfo: a string as the font package reports it
+type strInfo struct {
+	glyphs []glyph // per decoded character (simple font: per byte)
+	n, sp  int64   // bytes, space bytes
+	decLen int64   // len(decodedText): what the width estimate without a font uses
 }
 
 type rshow struct {
@@ -44,6 +66,10 @@ type refRun struct {
 	err   bool
 	exact bool
 	depth int
+	// withAdv: follow the glyph advances (info supplies the widths)
+	withAdv bool
+	info    func(sid int) strInfo
+	fontAt  map[int]bool // withAdv: whether a font was selected when string sid was shown
 }
 
 var lim = new(big.Int).Lsh(big.NewInt(1), 52)
@@ -109,10 +135,93 @@ func (r *refRun) td(tx, ty *big.Rat, ev string) {
 	r.cur.event = ev
 }
 
+// advance: Tm = T(tx,0) × Tm.  tx is given twice: iso, the exact value of ISO 32000-1
+// 9.4.4, and code, the same number formed in the order of tabula's float operations (the
+// exactness guard); they must agree.
+func (r *refRun) advance(iso, code *big.Rat) {
+	if iso != nil && iso.Cmp(code) != 0 {
+		panic(fmt.Sprintf("harness: displacement %s (ISO) vs %s (order of the code)", iso, code))
+	}
+	tm := r.cur.tm
+	tm[4] = r.add(tm[4], r.mul(code, tm[0]))
+	tm[5] = r.add(tm[5], r.mul(code, tm[1]))
+	r.cur.tm = tm
+}
+
+func (r *refRun) quo(a *big.Rat, d int64) *big.Rat { return r.chk(new(big.Rat).Quo(a, ri(d))) }
+
+// afterShow: what showing string sid does to Tm.
+func (r *refRun) afterShow(sid int) {
+	if !r.withAdv {
+		r.cur.known = false
+		return
+	}
+	inf := r.info(sid)
+	if r.fontAt == nil {
+		r.fontAt = map[int]bool{}
+	}
+	r.fontAt[sid] = r.cur.font
+	hs := r.quo(r.cur.th, 100)
+	var W int64
+	for _, g := range inf.glyphs {
+		W += g.w
+	}
+	var iso *big.Rat
+	if r.cur.font {
+		iso = new(big.Rat)
+		for _, g := range inf.glyphs {
+			t := new(big.Rat).Mul(rf(g.w, 1000), r.cur.fs)
+			t.Add(t, r.cur.tc)
+			if g.space {
+				t.Add(t, r.cur.tw)
+			}
+			iso.Add(iso, t.Mul(t, new(big.Rat).Quo(r.cur.th, ri(100))))
+		}
+	} else {
+		// no font selected: tabula estimates len(decodedText)·fontSize·0.5; nothing to demand
+		W = 500 * inf.decLen
+		r.cur.known = false
+	}
+	a := r.mul(r.quo(r.mul(ri(W), r.cur.fs), 1000), hs)
+	b := r.mul(r.mul(ri(inf.sp), r.cur.tw), hs)
+	c := r.mul(r.mul(ri(inf.n), r.cur.tc), hs)
+	r.advance(iso, r.add(r.add(a, b), c))
+	r.cur.event = "advance-origin"
+}
+
+// tjNumber: a number of a TJ array.
+func (r *refRun) tjNumber(v *big.Rat) {
+	r.cur.afterTJNum = true
+	if !r.withAdv {
+		r.cur.known = false
+		return
+	}
+	hs := r.quo(r.cur.th, 100)
+	iso := new(big.Rat).Mul(new(big.Rat).Neg(new(big.Rat).Quo(v, ri(1000))), r.cur.fs)
+	iso.Mul(iso, new(big.Rat).Quo(r.cur.th, ri(100)))
+	code := r.quo(r.mul(r.mul(new(big.Rat).Neg(v), r.cur.fs), hs), 1000)
+	r.advance(iso, code)
+	r.cur.event = "tj-array-origin"
+}
+
+// lineEvent: the oracle key of the next show after an operator that moves relative to the
+// text line matrix.
+func (r *refRun) lineEvent(ev string) string {
+	if r.cur.afterTJNum {
+		return "tj-keeps-line-matrix"
+	}
+	return ev
+}
+
 func (r *refRun) show() {
-	sh := rshow{known: r.cur.known, event: r.cur.event, tm: mstr(r.cur.tm), ctm: mstr(r.cur.ctm)}
-	full := r.mmul(r.cur.tm, r.cur.ctm)
-	sh.x, sh.y = full[4], full[5]
+	sh := rshow{known: r.cur.known && r.cur.rise.Sign() == 0, event: r.cur.event, tm: mstr(r.cur.tm), ctm: mstr(r.cur.ctm)}
+	if r.cur.rise.Sign() == 0 {
+		full := r.mmul(r.cur.tm, r.cur.ctm)
+		sh.x, sh.y = full[4], full[5]
+	} else {
+		// reported by GetTextPosition: (Tm.e, Tm.f + rise) through the CTM; no oracle
+		sh.x, sh.y = r.apply(r.cur.ctm, r.cur.tm[4], r.add(r.cur.tm[5], r.cur.rise))
+	}
 	th2, tv2, tsim := r.scale2(r.cur.tm)
 	_, cv2, csim := r.scale2(r.cur.ctm)
 	sh.similar = tsim && csim
@@ -130,7 +239,6 @@ func (r *refRun) show() {
 	sh.sizeExact = isSquare(kt) && isSquare(kc)
 	sh.size2 = r.mul(r.mul(r.mul(r.cur.fs, r.cur.fs), kt), kc)
 	r.shows = append(r.shows, sh)
-	r.cur.known = false
 }
 
 func (r *refRun) run(p []op, inForm bool) {
@@ -158,25 +266,57 @@ func (r *refRun) run(p []op, inForm bool) {
 			r.cur.event = "origin-cm"
 		case "BT":
 			r.cur.tm, r.cur.tlm, r.cur.known, r.cur.event = ident(), ident(), true, "origin-bt"
+			r.cur.afterTJNum = false
 		case "Tm":
 			m := mat{o.N[0], o.N[1], o.N[2], o.N[3], o.N[4], o.N[5]}
 			r.cur.tm, r.cur.tlm, r.cur.known, r.cur.event = m, m, true, "origin-tm"
+			r.cur.afterTJNum = false
 		case "Td":
-			r.td(o.N[0], o.N[1], "origin-td")
+			r.td(o.N[0], o.N[1], r.lineEvent("origin-td"))
+			r.cur.afterTJNum = false
 		case "TD":
 			r.cur.tl = new(big.Rat).Neg(o.N[1])
-			r.td(o.N[0], o.N[1], "origin-td")
+			r.td(o.N[0], o.N[1], r.lineEvent("origin-td"))
+			r.cur.afterTJNum = false
 		case "T*":
-			r.td(ri(0), new(big.Rat).Neg(r.cur.tl), "origin-leading")
+			r.td(ri(0), new(big.Rat).Neg(r.cur.tl), r.lineEvent("origin-leading"))
+			r.cur.afterTJNum = false
 		case "TL":
 			r.cur.tl = o.N[0]
 		case "Tf":
 			r.cur.fs = o.N[0]
+			r.cur.font = true
+		case "Tc":
+			r.cur.tc = o.N[0]
+		case "Tw":
+			r.cur.tw = o.N[0]
+		case "Tz":
+			r.cur.th = o.N[0]
+		case "Ts":
+			r.cur.rise = o.N[0]
 		case "Tj":
 			r.show()
+			r.afterShow(o.Sid)
+		case "TJ":
+			for _, it := range o.Items {
+				if it.Num == nil {
+					r.show()
+					r.afterShow(it.Sid)
+					if r.withAdv {
+						r.cur.event = "tj-array-origin"
+					}
+				} else {
+					r.tjNumber(it.Num)
+				}
+			}
 		case "'", "\"":
-			r.td(ri(0), new(big.Rat).Neg(r.cur.tl), "origin-leading")
+			if o.K == "\"" {
+				r.cur.tw, r.cur.tc = o.N[0], o.N[1]
+			}
+			r.td(ri(0), new(big.Rat).Neg(r.cur.tl), r.lineEvent("origin-leading"))
+			r.cur.afterTJNum = false
 			r.show()
+			r.afterShow(o.Sid)
 		case "Do":
 			if r.depth >= 10 {
 				continue // tabula's nesting limit; reached only by the recursive-form case
@@ -202,9 +342,23 @@ func (r *refRun) run(p []op, inForm bool) {
 	}
 }
 
-func runRef(p []op) *refRun {
+func newRef() *refRun {
 	r := &refRun{exact: true}
-	r.cur = rframe{ctm: ident(), tm: ident(), tlm: ident(), tl: ri(0), fs: ri(12), known: true, event: "origin-initial"}
+	r.cur = rframe{ctm: ident(), tm: ident(), tlm: ident(), tl: ri(0), fs: ri(12), tc: ri(0), tw: ri(0), th: ri(100), rise: ri(0),
+		known: true, event: "origin-initial"}
+	return r
+}
+
+func runRef(p []op) *refRun {
+	r := newRef()
+	r.run(p, false)
+	return r
+}
+
+// runRefAdv: the reference with glyph advances.
+func runRefAdv(p []op, info func(sid int) strInfo) *refRun {
+	r := newRef()
+	r.withAdv, r.info = true, info
 	r.run(p, false)
 	return r
 }
